@@ -43,7 +43,7 @@ type letterRec struct {
 
 var hvRe = regexp.MustCompile(`^hv([0-9]{1,2})$`)
 var statusRe = regexp.MustCompile(`^s([0-9]{3})$`)
-var codeRe = regexp.MustCompile(`^c([0-9]{1,2})$`)
+var codeRe = regexp.MustCompile(`^c([0-9]{1,10})$`)
 
 func letterOf(s string) letterRec {
 	if m := statusRe.FindStringSubmatch(s); m != nil {
@@ -153,14 +153,26 @@ type respRun struct {
 }
 
 var httpStatus = []string{"s200", "s201", "s204", "s299", "s301", "s304", "s400", "s404", "s418", "s429", "s500", "s503", "s599"}
-var httpNet = []string{"badstatus", "badheader", "hugeheader", "closebefore", "closeduring"}
-var httpBody = []string{"trunc", "badchunk"}
-var httpOdd = []string{"early", "empty", "big", "notjson", "jsonarr", "nothtml", "shorthdr", "nohdr"}
+var httpNet = []string{"badstatus", "badheader", "hugeheader", "closebefore", "closeduring", "many1xx"}
+var httpBody = []string{"trunc", "badchunk", "chunkhuge", "chunkneg", "chunknocrlf", "chunktrunc"}
+var tunnelLetters = []string{"tunrefused", "tun407", "tungarbage", "tunextra"}
+var httpList = []string{"lst0", "lst1", "lststr", "lstnull", "lstobj"}
+var httpOdd = []string{"early", "empty", "big", "notjson", "jsonarr", "nothtml", "shorthdr", "nohdr", "cont100", "upgrade", "gzipraw", "manyheaders", "dribble"}
 var allPosts = []string{"none", "jsonpath", "header_substr", "xpath", "assert", "all"}
+
+// response-derived lists: a captures `items: $.list`, b's preprocessor indexes it (spec/Responses.tla IdxPosts)
+var idxPosts = map[string]string{"idx_last": "last", "idx_next": "next", "idx_rand": "rand", "idx_0": "0", "idx_neg": "-1", "idx_big": "7"}
+var idxPostNames = []string{"idx_last", "idx_next", "idx_rand", "idx_0", "idx_neg", "idx_big"}
+
+// gRPC status codes outside the canonical range (the uint32 of the grpc-status trailer is the peer's)
+var grpcOddCodes = []string{"c17", "c42", "c2147483647"}
 
 func postsYAML(p string) string {
 	has := func(q string) bool { return p == q || p == "all" }
 	var b strings.Builder
+	if _, ok := idxPosts[p]; ok {
+		b.WriteString("      - type: var/jsonpath\n        mapping:\n          items: $.list\n")
+	}
 	if has("jsonpath") {
 		b.WriteString("      - type: var/jsonpath\n        mapping:\n          tok: $.tok\n          first: $.list[0]\n")
 	}
@@ -189,6 +201,10 @@ func httpScenarioPayload(letters []string, posts string, variant string) string 
 			method = "    method: POST\n    body: 'body=body'\n"
 		}
 		fmt.Fprintf(&b, "  - name: a%d\n%s    uri: /a\n    headers:\n      X-Letter: %s\n%s", i, method, l, postsYAML(posts))
+		if index, ok := idxPosts[posts]; ok {
+			fmt.Fprintf(&b, "  - name: b%d\n    method: POST\n    uri: /b\n    headers:\n      X-Letter: %s\n      X-Val: 'v{{.request.b%d.preprocessor.row}}'\n    body: 'x=1'\n    preprocessor:\n      mapping:\n        row: request.a%d.postprocessor.items[%s]\n", i, l, i, i, index)
+			continue
+		}
 		fmt.Fprintf(&b, "  - name: b%d\n    method: POST\n    uri: /b\n    headers:\n      X-Letter: %s\n      X-Val: 'v{{.request.a%d.postprocessor.tok}}'\n    body: 'x={{.request.a%d.postprocessor.low}}'\n", i, l, i, i)
 	}
 	b.WriteString("scenarios:\n")
@@ -261,6 +277,9 @@ type respPlan struct {
 	av      string // ammo variant: "" | meta | emptymeta | emptydefault | body
 	avail   string // availability history: the target goes away like this (avreset | avhole) and comes back; staged start-up
 	tls     bool   // handshake-level letter: the run goes to the TLS fault target, keep-alive off
+	h2raw   bool   // the run goes to the frame-level HTTP/2 target
+	gz      bool   // the client decompresses (disable-compression: false)
+	tunnel  bool   // the letter is what the target does to the connect gun's CONNECT
 	sub     int    // n+1: the enumerated substr bounds against a header value of n bytes (one instance); 0: not such a run
 	debug   bool
 	gun     string
@@ -334,6 +353,33 @@ func planAll(mixes int, rnd *rand.Rand, h2 bool) []respPlan {
 			plans = append(plans, respPlan{gun: "http/scenario", posts: p, letters: repeat(l, shots)})
 		}
 	}
+	// Content-Encoding: gzip on garbage, with a client that decompresses (single-letter runs: the gun option is per run)
+	for _, g := range []string{"http", "http/scenario", "connect"} {
+		po := map[string]string{"http": "none", "http/scenario": "all", "connect": "none"}[g]
+		plans = append(plans, respPlan{gun: g, posts: po, letters: repeat("gzipbad", shots), gz: true})
+		if g != "connect" {
+			plans = append(plans, respPlan{gun: g, posts: po, letters: repeat("gzipbad", shots), gz: true, debug: true})
+		}
+	}
+	plans = append(plans, respPlan{gun: "http/scenario", posts: "none", letters: repeat("gzipbad", shots), gz: true})
+	// the connect gun's tunnel is refused / answered 407 / with garbage / with bytes behind the 200
+	for _, l := range tunnelLetters {
+		plans = append(plans, respPlan{gun: "connect", posts: "none", letters: repeat(l, shots), tunnel: true})
+	}
+	plans = append(plans, respPlan{gun: "connect", posts: "none", letters: repeat("tun407", shots), tunnel: true, debug: true})
+	// response-derived lists indexed by a later step's preprocessor: every index form x (empty, one element, not a list,
+	// two elements, no JSON at all, no response at all)
+	for _, l := range httpList {
+		plans = append(plans, respPlan{gun: "http/scenario", posts: "all", letters: repeat(l, shots)})
+	}
+	for _, p := range idxPostNames {
+		for _, l := range []string{"lst0", "lst1", "lststr", "lstnull", "lstobj", "s200", "notjson", "closebefore"} {
+			if (l == "lstnull" || l == "lstobj" || l == "notjson" || l == "closebefore") && p != "idx_last" && p != "idx_next" {
+				continue
+			}
+			plans = append(plans, respPlan{gun: "http/scenario", posts: p, letters: repeat(l, shots)})
+		}
+	}
 	for _, g := range []string{"http", "http/scenario"} {
 		plans = append(plans, respPlan{gun: g, posts: map[string]string{"http": "none", "http/scenario": "all"}[g], letters: repeat("refused", shots), refused: true})
 		plans = append(plans, respPlan{gun: g, posts: map[string]string{"http": "none", "http/scenario": "all"}[g], letters: repeat("timeout", shots), timeout: true})
@@ -380,7 +426,11 @@ func planAll(mixes int, rnd *rand.Rand, h2 bool) []respPlan {
 		plans = append(plans, respPlan{gun: "grpc", posts: "none", letters: repeat(fmt.Sprintf("c%d", c), shots)})
 		plans = append(plans, respPlan{gun: "grpc/scenario", posts: "none", letters: repeat(fmt.Sprintf("c%d", c), shots)})
 	}
-	for _, l := range []string{"gbig", "gtoobig", "gslow", "gkill"} {
+	for _, l := range grpcOddCodes {
+		plans = append(plans, respPlan{gun: "grpc", posts: "none", letters: repeat(l, shots)})
+		plans = append(plans, respPlan{gun: "grpc/scenario", posts: "none", letters: repeat(l, shots)})
+	}
+	for _, l := range []string{"gbig", "gtoobig", "gslow", "gkill", "gempty", "ggarbage", "gkillmid"} {
 		plans = append(plans, respPlan{gun: "grpc", posts: "none", letters: repeat(l, shots), timeout: l == "gslow"})
 		plans = append(plans, respPlan{gun: "grpc/scenario", posts: "none", letters: repeat(l, shots), timeout: l == "gslow"})
 	}
@@ -407,6 +457,26 @@ func planAll(mixes int, rnd *rand.Rand, h2 bool) []respPlan {
 			}
 			plans = append(plans, respPlan{gun: g, posts: p, letters: repeat("nonh2", shots), fatal: true})
 		}
+		// HTTP/2 frame level: GOAWAY, RST_STREAM (instead of / in the middle of a response), a frame on stream 0, a block
+		// that is not HPACK, a flood of SETTINGS and PINGs - and mixtures of them with well-formed responses on the
+		// same connections (the next shot of the instance must be unaffected)
+		for _, g := range []string{"http2", "http2/scenario"} {
+			p := map[string]string{"http2": "none", "http2/scenario": "all"}[g]
+			for _, l := range []string{"h2goaway", "h2rst", "h2rstmid", "h2badframe", "h2hpackbad", "h2flood", "s200", "s500"} {
+				plans = append(plans, respPlan{gun: g, posts: p, letters: repeat(l, shots), h2raw: true})
+				if l == "h2rst" || l == "h2rstmid" || l == "h2goaway" {
+					plans = append(plans, respPlan{gun: g, posts: p, letters: repeat(l, shots), h2raw: true, debug: true})
+				}
+			}
+			mixH2 := []string{"s200", "s404", "s500", "shorthdr", "notjson", "h2rst", "h2rstmid", "h2goaway", "h2hpackbad"}
+			for m := 0; m < 1+mixes/3; m++ {
+				letters := make([]string, shots)
+				for i := range letters {
+					letters[i] = mixH2[rnd.Intn(len(mixH2))]
+				}
+				plans = append(plans, respPlan{gun: g, posts: p, letters: letters, h2raw: true, mix: true})
+			}
+		}
 		// TLS handshake level: a target that does speak HTTP/2 but fails a share of the handshakes
 		for _, g := range []string{"https", "http2", "http2/scenario"} {
 			p := map[string]string{"https": "none", "http2": "none", "http2/scenario": "all"}[g]
@@ -422,8 +492,9 @@ func planAll(mixes int, rnd *rand.Rand, h2 bool) []respPlan {
 		}
 	}
 	// seeded random mixtures (letters whose effect is confined to their own request)
-	mixHTTP := append(append(append(append([]string{}, httpStatus...), httpNet...), httpBody...), httpOdd...)
-	mixGrpc := []string{"gbig", "gtoobig"}
+	mixHTTP := append(append(append(append(append([]string{}, httpStatus...), httpNet...), httpBody...), httpOdd...), httpList...)
+	mixGrpc := append([]string{"gbig", "gtoobig", "gempty", "ggarbage"}, grpcOddCodes...)
+	mixPosts := append(append([]string{}, allPosts...), idxPostNames...)
 	for c := 0; c <= 16; c++ {
 		mixGrpc = append(mixGrpc, fmt.Sprintf("c%d", c))
 	}
@@ -439,7 +510,7 @@ func planAll(mixes int, rnd *rand.Rand, h2 bool) []respPlan {
 		if m%3 == 0 {
 			plans = append(plans, respPlan{gun: "connect", posts: "none", letters: pick(mixHTTP), mix: true})
 		}
-		plans = append(plans, respPlan{gun: "http/scenario", posts: allPosts[rnd.Intn(len(allPosts))], letters: pick(mixHTTP), mix: true, debug: m%3 == 2})
+		plans = append(plans, respPlan{gun: "http/scenario", posts: mixPosts[rnd.Intn(len(mixPosts))], letters: pick(mixHTTP), mix: true, debug: m%3 == 2})
 		if m%2 == 0 {
 			plans = append(plans, respPlan{gun: "grpc", posts: "none", letters: pick(mixGrpc), mix: true})
 			plans = append(plans, respPlan{gun: "grpc/scenario", posts: "none", letters: pick(mixGrpc), mix: true})
@@ -449,13 +520,14 @@ func planAll(mixes int, rnd *rand.Rand, h2 bool) []respPlan {
 }
 
 type respTargets struct {
-	raw  *scentarget.RawTarget
-	slow *scentarget.RawTarget
-	grpc *scentarget.GrpcTarget
-	h2   *httptest.Server
-	h1s  *httptest.Server
-	tls  *scentarget.TLSTarget
-	dead string
+	raw   *scentarget.RawTarget
+	slow  *scentarget.RawTarget
+	grpc  *scentarget.GrpcTarget
+	h2    *httptest.Server
+	h1s   *httptest.Server
+	tls   *scentarget.TLSTarget
+	h2raw *scentarget.H2RawTarget
+	dead  string
 }
 
 func h2Handler(w http.ResponseWriter, r *http.Request) {
@@ -493,6 +565,7 @@ func newTargets(h2 bool) *respTargets {
 		t.h1s.TLS = &tls.Config{NextProtos: []string{"http/1.1"}}
 		t.h1s.StartTLS()
 		t.tls = scentarget.NewTLSTarget()
+		t.h2raw = scentarget.NewH2RawTarget()
 	}
 	return t
 }
@@ -505,6 +578,7 @@ func (t *respTargets) close() {
 		t.h2.Close()
 		t.h1s.Close()
 		t.tls.Close()
+		t.h2raw.Close()
 	}
 }
 
@@ -551,10 +625,21 @@ func runPlan(idx int, p respPlan, t *respTargets, root string) respRun {
 			target = t.dead
 			seen = func() int64 { return 0 }
 		}
+		if p.gz {
+			extra += "      disable-compression: false\n"
+		}
+		if p.tunnel {
+			t.raw.Tunnel.Store(p.letters[0])
+			defer t.raw.Tunnel.Store("")
+			seen = func() int64 { return 0 }
+		}
 		if strings.HasPrefix(p.gun, "http2") {
 			target = strings.TrimPrefix(t.h2.URL, "https://")
 			if p.fatal {
 				target = strings.TrimPrefix(t.h1s.URL, "https://")
+			}
+			if p.h2raw {
+				target = t.h2raw.Addr()
 			}
 			extra += "      ssl: true\n      tls-handshake-timeout: 60s\n"
 			seen = func() int64 { return 0 }
@@ -730,7 +815,8 @@ func responsesMain(args []string) {
 	defer w.Close()
 	results := make([]respRun, len(plans))
 	heavy := func(p respPlan) bool {
-		return p.avail != "" || p.timeout || p.letters[0] == "big" || p.letters[0] == "hugeheader" || p.letters[0] == "gkill"
+		return p.avail != "" || p.timeout || p.letters[0] == "big" || p.letters[0] == "hugeheader" || p.letters[0] == "gkill" ||
+			p.letters[0] == "gkillmid" || p.letters[0] == "manyheaders"
 	}
 	order := []int{}
 	for j := range plans {
